@@ -162,7 +162,7 @@ def classify(unit_name, meta, vr):
         for ln in lines:
             v = v or vac_at(ln)
         if v is not None:
-            if msg == 'postcondition not satisfied':
+            if msg == 'postcondition not satisfied' or any(u in msg for u in UNDECIDED_MSGS):
                 vac_failed.add(v['twin'])
             continue
         if any(u in msg for u in UNDECIDED_MSGS):
